@@ -363,6 +363,12 @@ pub struct GoSpec {
 
 /// clock settings: none; zero/negative; around the 100 ms margin; timed with plans <= ~50 ms
 pub fn gen_go(rng: &mut Rng, timed_ok: bool, white_to_move: bool) -> String {
+    gen_go_max(rng, timed_ok, white_to_move, 50)
+}
+
+/// `max_plan_ms`: the longest plan to generate (longer plans are affordable on a slow box,
+/// where a slice holds few nodes)
+pub fn gen_go_max(rng: &mut Rng, timed_ok: bool, white_to_move: bool, max_plan_ms: i64) -> String {
     let mut parts: Vec<String> = vec!["go".into()];
     let kind = rng.below(if timed_ok { 10 } else { 4 });
     let (my, other) = if white_to_move { ("w", "b") } else { ("b", "w") };
@@ -395,7 +401,7 @@ pub fn gen_go(rng: &mut Rng, timed_ok: bool, white_to_move: bool) -> String {
             // timed: plan = 0.8 * (clock - 100) / mtg, keep it within 1..=50 ms
             let mtg = *rng.pick(&[0u32, 0, 1, 2, 40]);
             let div = if mtg == 0 { 30 } else { mtg } as i64;
-            let plan = rng.range(1, 50);
+            let plan = if max_plan_ms > 50 && rng.chance(1, 3) { rng.range(51, max_plan_ms) } else { rng.range(1, 50) };
             let clock = 100 + (plan * div * 10 + 7) / 8;
             parts.push(format!("{}time", my));
             parts.push(clock.to_string());
